@@ -424,6 +424,20 @@ fn run_all_inspections(
             None,
         )?;
 
+        // a failing inspection command makes verification fail
+        if let MetadataWrapper::Link(link) = &metablock.metadata {
+            match link.byproducts.return_value() {
+                Some(return_value) if return_value != 0 => {
+                    return Err(Error::VerificationFailure(format!(
+                        "inspection '{}' exited with return value {}",
+                        inspect.name(),
+                        return_value
+                    )));
+                }
+                _ => {}
+            }
+        }
+
         // dump the metadata
         let filename = format!("{}.link", inspect.name());
         std::fs::write(filename, serde_json::to_string_pretty(&metablock)?)?;
